@@ -40,6 +40,12 @@ type ExploreCfg struct {
 	NShards  int
 	Deadline time.Time
 	Races    bool // collect monitor races as findings through RaceFinding
+	// Delay: delay bounding instead of preemption bounding - EVERY departure from the default
+	// scheduler (continue the running thread; when it blocks or ends, the enabled thread with the
+	// lowest creation index) costs one deviation, also at points where the running thread cannot
+	// continue. The bounded space is polynomial in the number of points instead of factorial in the
+	// number of short-lived threads.
+	Delay bool
 	// DefaultOnly: run just the default schedule (plus the determinism self-test) - for sweeps whose
 	// subject is a sequential behaviour that happens to run through goroutine-spawning code
 	DefaultOnly bool
@@ -208,7 +214,9 @@ func RaceFinding(rc vsched.Race) Finding {
 
 // Explore enumerates the executions of sc within cfg and folds coverage and violations into res.
 func Explore(prop string, sc *Scenario, cfg ExploreCfg, res *Result) {
-	res.Configs++
+	if cfg.Shard == 0 {
+		res.Configs++
+	}
 	if cfg.NShards == 0 {
 		cfg.NShards = 1
 	}
@@ -387,12 +395,15 @@ func exploreOnce(prop string, sc *Scenario, cfg ExploreCfg, res *Result, sites m
 		// expand alternatives after the prefix
 		dev := 0
 		for i := 0; i < len(it.prefix) && i < len(ex.Points); i++ {
-			if ex.Points[i].Chosen != 0 && ex.Points[i].Costly {
+			if ex.Points[i].Chosen != 0 && (ex.Points[i].Costly || cfg.Delay) {
 				dev++
 			}
 		}
 		for i := len(it.prefix); i < len(ex.Points); i++ {
 			p := ex.Points[i]
+			if cfg.Delay {
+				p.Costly = true
+			}
 			states[p.EnabledFP^p.Running] = true
 			if cfg.Prune {
 				k := seenKey{p.EnabledFP, p.Running}
